@@ -77,7 +77,27 @@ def add(a, b):
 @problog_export("+str", "-str")
 def echo(s):
     return s
+
+@problog_export("+int", "+int", "-int", "-int")
+def sum_prod(a, b):
+    return a + b, a * b
+
+@problog_export("+int", "-int", "-int", "-int")
+def triple(a):
+    return a, a + 10, a + 20
 '''
+
+# calls of the multi-output exports with every binding pattern of the outputs: a bound output acts as a test against the
+# Python result (position by position).  (goal, expected answers)
+MULTI_OUT = [
+    ("sum_prod(2,3,S,P)", ["2,3,5,6"]), ("sum_prod(2,3,5,P)", ["2,3,5,6"]), ("sum_prod(2,3,S,6)", ["2,3,5,6"]),
+    ("sum_prod(2,3,5,6)", ["2,3,5,6"]), ("sum_prod(2,3,4,P)", []), ("sum_prod(2,3,S,7)", []), ("sum_prod(2,3,6,5)", []),
+    ("sum_prod(2,3,5,7)", []), ("sum_prod(2,3,4,6)", []),
+    ("triple(1,A,B,C)", ["1,1,11,21"]), ("triple(1,1,B,C)", ["1,1,11,21"]), ("triple(1,A,11,C)", ["1,1,11,21"]),
+    ("triple(1,A,B,21)", ["1,1,11,21"]), ("triple(1,1,11,C)", ["1,1,11,21"]), ("triple(1,A,11,21)", ["1,1,11,21"]),
+    ("triple(1,2,B,C)", []), ("triple(1,A,12,C)", []), ("triple(1,A,B,22)", []), ("triple(1,1,12,C)", []),
+    ("triple(1,21,11,1)", []), ("triple(1,A,21,11)", []), ("triple(1,11,B,21)", []),
+]
 
 
 def run(tier, seed):
@@ -155,6 +175,21 @@ def run(tier, seed):
                 col.violation("bounded:c28:export-inputs", "add/echo answered %s" % got, dict())
         except Exception as e:      # noqa
             col.violation("bounded:c28:export-exception", "add/echo -> %s" % classify_exception(e), dict())
+        from problog.engine import DefaultEngine
+        from problog.logic import Term
+        for goal, expected in MULTI_OUT:
+            col.case(("multi-output", goal))
+            try:
+                eng = DefaultEngine()
+                db = eng.prepare(PrologString(":- use_module('%s').\n" % os.path.join(d, "c28_extern.py")))
+                res = eng.query(db, Term.from_string(goal))
+                got = sorted(",".join(str(x) for x in ans) for ans in res)
+            except Exception as e:      # noqa
+                col.violation("bounded:c28:export-exception", "%s -> %s" % (goal, classify_exception(e)), dict(goal=goal))
+                continue
+            if got != sorted(expected):
+                col.violation("bounded:c28:export-multi-output", "%s answered %s, the Python function returns %s"
+                              % (goal, got, expected), dict(goal=goal))
     finally:
         shutil.rmtree(d, ignore_errors=True)
     out.append(col.result())
